@@ -169,6 +169,10 @@ def mk_transformer(x, st, stack_top=True, named=("a", "b")):
         d.present[k] = fresh(f"has_{k}", z3.BoolSort()); d.vals[k] = r; nrefs[k] = r
     nd = st.alloc("dict", {"$d": d})
     tr = st.alloc("CoordinateTransformer", {"_named_transforms": nd, "_transforms_stack": stack, "_current_transform": cur})
+    # witness region for refutations: when a clause is not proved and the general query is 'unknown' (non-linear), the negated clause is tried inside
+    # this region (diagonal stored matrices, identity current transform); a model found there is a genuine counterexample (sat under a hint is sat)
+    c_ = getattr(x, "ctx", None)
+    if c_ is not None and not c_.default_hint: c_.default_hint = HINTS[-8:] + [mat_eq(v["M"], I4), mat_eq(v["R"], I4)]
     return tr, AND(*wfs), dict(cur=cur, v=v, stack=stack, named=nd, nrefs=nrefs, top=items[0] if items else None)
 
 
@@ -183,6 +187,11 @@ def _elementary(name, mk_args, expect_K, raises=None, props=("C04", "C13")):
         n_assume = len(ctx.assumes)
         exits = ctx.run(x, f"CoordinateTransformer.{name.split('[')[0]}", [tr] + args, {}, st)
         hint = HINTS[-8:] + [mat_eq(info["v"]["M"], I4), mat_eq(info["v"]["R"], I4)]
+        if name.startswith(("translate", "scale")):
+            # plain arithmetic on the matrices: the real method can be replayed on the model and compared entry by entry (other elementary maps go through
+            # uninterpreted sqrt / scipy rotations, whose model interpretation is arbitrary)
+            from specs import harness
+            ctx.replayer = harness.transformer_replayer(ctx, ctx.w, name.split("[")[0], tr, info, h0, args, exits)
         for i, e in enumerate(exits):
             h = list(hint)
             if getattr(ctx, "_normal", None) and e.kind == "return": h += [ctx._normal[0].val == 1, ctx._normal[1].val == 0, ctx._normal[2].val == 0]
